@@ -2,7 +2,9 @@ package main
 
 import (
 	"bytes"
+	"errors"
 	"fmt"
+	"io"
 	"sort"
 	"strings"
 	"time"
@@ -125,6 +127,29 @@ func runText(tc *textCase) (textRes, []failure) {
 			if cr.n > 5+64 {
 				extra = append(extra, failure{"cap-consumed", fmt.Sprintf("shared-port header reader consumed %d bytes (bound 69)", cr.n)})
 			}
+			cls := "0"
+			if err != nil {
+				cls = "4"
+				if errors.Is(err, io.EOF) || errors.Is(err, io.ErrUnexpectedEOF) {
+					cls = "1"
+				}
+			}
+			res.strs = []string{cls, fmt.Sprint(cr.n)}
+			return nil, false, err
+		case "sp_header_write":
+			var buf bytes.Buffer
+			if err := sharedport.VerifC13WritePassSockHeader(&buf); err != nil {
+				return nil, false, err
+			}
+			res.strs = []string{buf.String()}
+			// reader . writer, with the case's input as trailing bytes (model-independent oracle)
+			cr := &countReader{r: bytes.NewReader(append(append([]byte(nil), buf.Bytes()...), tc.In...))}
+			if err := sharedport.VerifC13ReadPassSockHeader(cr); err != nil || cr.n != buf.Len() {
+				extra = append(extra, failure{"roundtrip", fmt.Sprintf("readPassSockHeader(writePassSockHeader() ++ %d bytes): err=%v consumed=%d", len(tc.In), err, cr.n)})
+			}
+		case "watch_dec_req", "watch_dec_hdr", "watch_enc_req", "watch_enc_hdr":
+			var err error
+			res.strs, extra, err = runWatch(tc.Fn, tc.In)
 			return nil, false, err
 		case "watch_request":
 			ad := classad.New()
@@ -163,6 +188,9 @@ func runText(tc *textCase) (textRes, []failure) {
 	}
 	if b := allocBound("text", len(tc.In)); out.Alloc > b {
 		fails = append(fails, failure{"alloc", fmt.Sprintf("%s allocated %d bytes for a %d-byte input (bound %d)", tc.Fn, out.Alloc, len(tc.In), b)})
+	}
+	if (tc.Fn == "sp_header" || tc.Fn == "sp_header_write") && out.Alloc > 16384 {
+		fails = append(fails, failure{"alloc", fmt.Sprintf("%s allocated %d bytes (the header is at most 69 bytes; bound 16 KiB)", tc.Fn, out.Alloc)})
 	}
 	if out.Dur > 3*time.Second {
 		fails = append(fails, failure{"slow", fmt.Sprintf("%s ran %v on a %d-byte input", tc.Fn, out.Dur, len(tc.In))})
@@ -266,7 +294,7 @@ func addTextCase(c *core.Ctx, fn string, in []byte) {
 			c.Nontrivial("sinful|" + string(in))
 		}
 	default:
-		if !addAddrCase(c, fn, in, res, tc) {
+		if !addAddrCase(c, fn, in, res, tc) && !addWatchCase(c, fn, in, res, tc) {
 			c.Evaluated(1)
 		}
 	}
